@@ -144,7 +144,7 @@ def block(stmts, env):
 def main():
     src = open(SRC).read()
     tree = ast.parse(src)
-    out = ['(* GENERATED from %s -- do not edit *)' % SRC,
+    out = ['(* GENERATED from Python/dawgie/db/basis.py by tools/translate/range2coq.py -- do not edit *)',
            'From Coq Require Import ZArith Bool.',
            'Open Scope Z_scope.', 'Open Scope bool_scope.',
            '(* Range(start, stop): stop = None is an open range *)',
